@@ -53,7 +53,7 @@ var c10Cmd = func() parser.CommandConfig {
 	return c
 }()
 
-const c10Contexts = 13
+const c10Contexts = 14
 
 func c10Valid(seq []argTok) bool {
 	texts := map[string]bool{}
@@ -238,6 +238,9 @@ func runC10(tier string) int {
 					case 11: // the command is an AutoVar command standing in the middle of a condition (it is rendered like a statement, before its comparison)
 						src = "script S {\n\tif (flag(A) && " + csrc + " && flag(B) || flag(C)) {\n\t\tx\n\t}\n}\n"
 						want = []string{"\t" + cout, "\tcompare VAR_RESULT, 0"}
+					case 13: // the command is an AutoVar command and the operand of a switch that is THE statement of a colon-form poryswitch case
+						src = "script S {\n\tpre\n\tporyswitch(PV) {\n\t\tSEL: switch (" + csrc + ") {\n\t\t\tcase 1:\n\t\t\t\tx\n\t\t}\n\t\t_: other\n\t}\n\tpost\n}\n"
+						want = []string{"\tpre", "\t" + cout, "\tswitch VAR_RESULT"}
 					case 12: // inside the inline script of a table entry of the FIRST of two tables of a mapscripts statement
 						src = "mapscripts M {\n\tT1 [\n\t\tVAR_A, 1 {\n\t\t\tpre\n\t\t\t" + csrc + "\n\t\t\tpost\n\t\t}\n\t]\n\tT2 [\n\t\tVAR_B, 2 {\n\t\t\tother\n\t\t}\n\t]\n}\n"
 						cout = strings.ReplaceAll(strings.ReplaceAll(cout, "S_Movement_0", "M_T1_0_Movement_0"), "S_Text_0", "M_T1_0_Text_0")
@@ -430,7 +433,7 @@ func runC10(tier string) int {
 	// two commands whose inline texts are different strings with equal 64-bit digests: each command line carries the label of its own text
 	hashCollisionFiles(r, "C10")
 	return r.Finish(r.Get("evaluations"), r.Get("nontrivial"),
-		"every argument token sequence of length <= L over a 26-token alphabet (a two-part text with a run of comment lines between the parts, an ascii text ending in 0, identifiers incl. multi-byte, keywords, decimal/negative/hex numbers, operators, an illegal character, parentheses, comma, two constants, inline text, moves()) that is in the domain, with 11 command names incl. case variants of end / return / goto / call (all names for <= 1 token, rotating beyond), in 13 contexts (in the inline script of the first of two tables of a mapscripts statement, as an AutoVar command in the middle of a condition, after a command whose inline data are spelled like this command's data joined / typed, alone, middle of a stretch, twice in a row, all on one line, inside an if body, inside a poryswitch case selected through _ / directly, last command of an if body / loop body / switch case); plus every identifier-like literal of the compiler's own source as command name and as argument in 3 contexts; plus prepared pairs of inline texts with equal digests under common 64-bit hashes; plus commands with K arguments and stretches of K commands for every K up to the bound in the coverage; the whole emitted file is compared byte for byte with the generator's expectation; non-trivial = >= 2 arguments and nested parentheses")
+		"every argument token sequence of length <= L over a 26-token alphabet (a two-part text with a run of comment lines between the parts, an ascii text ending in 0, identifiers incl. multi-byte, keywords, decimal/negative/hex numbers, operators, an illegal character, parentheses, comma, two constants, inline text, moves()) that is in the domain, with 11 command names incl. case variants of end / return / goto / call (all names for <= 1 token, rotating beyond), in 14 contexts (as the operand of a switch that is the statement of a colon-form poryswitch case, in the inline script of the first of two tables of a mapscripts statement, as an AutoVar command in the middle of a condition, after a command whose inline data are spelled like this command's data joined / typed, alone, middle of a stretch, twice in a row, all on one line, inside an if body, inside a poryswitch case selected through _ / directly, last command of an if body / loop body / switch case); plus every identifier-like literal of the compiler's own source as command name and as argument in 3 contexts; plus prepared pairs of inline texts with equal digests under common 64-bit hashes; plus commands with K arguments and stretches of K commands for every K up to the bound in the coverage; the whole emitted file is compared byte for byte with the generator's expectation; non-trivial = >= 2 arguments and nested parentheses")
 }
 
 // c10Switches: the compile switches of every C10 compilation. Besides PV (which selects the poryswitch cases of the
